@@ -13,7 +13,7 @@ txt = open(os.path.join(src, 'note.txt')).read().strip()
 files = sorted(set(re.findall(r'^\+\+\+ b/(\S+)', open(os.path.join(d, 'patch.diff')).read(), re.M)))
 meta = dict(property=prop, summary=txt, needs='(see summary: the change needs the specific input / call sequence described there to manifest)',
             files_changed=files, why_tests_pass='see summary; pytest result unchanged: 111 passed, 1 failed (test_core_notes32_mips, pre-existing), 2 collection errors',
-            round=6,
+            round=int(os.environ.get("SEED_ROUND", "6")),
             confirmed=dict(ran='tools/confirm_seed2.sh: pinned pytest suite in the worktree with the change (111 passed, same as baseline); demo.py exits 1 '
                                'with the change and 0 without; ./check all --root <worktree>',
                            status='caught' if first == 'caught' else ('caught after strengthening' if det else 'missed'), note=note),
